@@ -132,6 +132,13 @@ pub fn eval(c: &ImgCase) -> CaseOut {
     // 1. read through the library
     let dev = MemDev::new(img.clone());
     dev.with(|d| d.budget = 30_000_000);
+    // one storage in four makes short transfers (legal for the storage traits): reads through the library, and the
+    // mutation below, must not depend on transfer sizes
+    let short_seed = c.mut_entropy.first().copied().unwrap_or(0) as u64;
+    if short_seed % 4 == 0 {
+        dev.with(|d| d.short_io = short_seed.wrapping_mul(0x9E37_79B9_7F4A_7C15) | 1);
+        out.classes.insert("images_on_short_transfer_storage".into(), 1);
+    }
     let mut pool = Pool::new(&c.mut_entropy);
     let chunk = [1usize, 7, 100, 511, 512, 513, 4096, 70000][pool.below(8) as usize];
     let truth_label = truth.label;
@@ -766,7 +773,7 @@ pub fn run(tier: Tier, seed: u64) -> i32 {
     }
     rep.add(reg);
     if !rep.failed() {
-        rep.add(run::run_random("generated_foreign_images", seed, tier.pick(3000, 80000), "image", || run::boxed(case_strategy()), |c: &ImgCase| eval(c)));
+        rep.add(run::run_random("generated_foreign_images", seed, tier.pick(12000, 120000), "image", || run::boxed(case_strategy()), |c: &ImgCase| eval(c)));
     }
     if !rep.failed() && tier == Tier::Thorough {
         rep.add(run::fuzz_block("image", 200_000, seed, 512));
